@@ -37,6 +37,9 @@ def load_class_inventory() -> Set[str]:
         return set(json.load(fh).get("classes", []))
 
 
+_KNOWN_FUNCS: Set[str] = set()
+
+
 def erase_namedtuples(trees: Dict[str, ast.Module], known_classes: Set[str]) -> List[str]:
     """Unknown `class P(NamedTuple)` record types (fields only, no methods) are erased: `P(a, b)` / `P(x=a, y=b)` becomes
     the tuple `(a, b)` and `.x` becomes `[0]` -- the tuple the rules already know how to follow.  A field whose name is
@@ -96,6 +99,95 @@ def erase_namedtuples(trees: Dict[str, ast.Module], known_classes: Set[str]) -> 
                 clash.add(f)
             field_index[f] = i
     usable = {f: i for f, i in field_index.items() if f not in taken and f not in clash}
+    # fields whose name is also an attribute of other objects are rewritten only on receivers that are known, locally, to
+    # hold the record (typed): names assigned from the constructor, lists they are appended to, subscripts / loop variables
+    # of such lists.  A record with such a field is erased only if the record never leaves that local view (it is not passed
+    # to another function, stored in an attribute or returned by a function that stays) -- a half-erased record would be worse
+    # than the NamedTuple itself, which the evaluators understand natively.
+    ambiguous = {}
+    for cname in list(names):
+        amb = [f for f in names[cname][2] if f not in usable]
+        if amb:
+            ambiguous[cname] = amb
+    typed_reads = {}          # id(Attribute node) -> index, for ambiguous fields on typed receivers
+    for cname, amb in list(ambiguous.items()):
+        rel, cnode, fields, _ = names[cname]
+        ok = True
+        reads = {}
+        for rel2, tree in trees.items():
+            for key, fnode, cls, outer in function_keys(rel2, tree):
+                ctor_calls = [n for n in _walk_no_defs(fnode) if isinstance(n, ast.Call) and isinstance(n.func, ast.Name) and n.func.id == cname]
+                if not ctor_calls:
+                    continue
+                if rel2 != rel and not any(isinstance(st, ast.ImportFrom) and any(a_.name == cname for a_ in st.names) for st in tree.body):
+                    continue
+                par = {}
+                for n in ast.walk(fnode):
+                    for ch in ast.iter_child_nodes(n):
+                        par[id(ch)] = n
+                rec_names, rec_lists = set(), set()
+                for c in ctor_calls:
+                    p_ = par.get(id(c))
+                    if isinstance(p_, ast.Assign) and p_.value is c and len(p_.targets) == 1 and isinstance(p_.targets[0], ast.Name):
+                        rec_names.add(p_.targets[0].id)
+                    elif isinstance(p_, ast.Call) and isinstance(p_.func, ast.Attribute) and p_.func.attr in ("append", "insert") \
+                            and isinstance(p_.func.value, ast.Name) and c in p_.args:
+                        rec_lists.add(p_.func.value.id)
+                    elif isinstance(p_, ast.Return) and f"{rel2}::" and True:
+                        # returned: fine only if this function is itself unknown (it will be inlined into its callers)
+                        ok = ok and (key not in _KNOWN_FUNCS)
+                    elif isinstance(p_, (ast.Tuple, ast.List)) or isinstance(p_, ast.IfExp):
+                        ok = False
+                    else:
+                        ok = False
+                changed = True
+                while changed:
+                    changed = False
+                    for n in _walk_no_defs(fnode):
+                        if isinstance(n, ast.Assign) and len(n.targets) == 1 and isinstance(n.targets[0], ast.Name):
+                            v = n.value
+                            src_typed = (isinstance(v, ast.Name) and v.id in rec_names) or \
+                                (isinstance(v, ast.Subscript) and isinstance(v.value, ast.Name) and v.value.id in rec_lists) or \
+                                (isinstance(v, ast.Call) and isinstance(v.func, ast.Attribute) and v.func.attr == "pop"
+                                 and isinstance(v.func.value, ast.Name) and v.func.value.id in rec_lists)
+                            if src_typed and n.targets[0].id not in rec_names:
+                                rec_names.add(n.targets[0].id)
+                                changed = True
+                        elif isinstance(n, ast.Assign) and len(n.targets) == 1 and isinstance(n.targets[0], (ast.Tuple, ast.List)) \
+                                and isinstance(n.value, (ast.Tuple, ast.List)) and len(n.targets[0].elts) == len(n.value.elts):
+                            for t_, v_ in zip(n.targets[0].elts, n.value.elts):
+                                if isinstance(t_, ast.Name) and isinstance(v_, ast.Name) and v_.id in rec_names and t_.id not in rec_names:
+                                    rec_names.add(t_.id)
+                                    changed = True
+                        elif isinstance(n, (ast.For, ast.comprehension)) and isinstance(n.target, ast.Name) \
+                                and isinstance(n.iter, ast.Name) and n.iter.id in rec_lists and n.target.id not in rec_names:
+                            rec_names.add(n.target.id)
+                            changed = True
+                for n in _walk_no_defs(fnode):
+                    if isinstance(n, ast.Attribute) and isinstance(n.ctx, ast.Load) and n.attr in amb:
+                        v = n.value
+                        typed = (isinstance(v, ast.Name) and v.id in rec_names) or \
+                            (isinstance(v, ast.Subscript) and isinstance(v.value, ast.Name) and v.value.id in rec_lists)
+                        if typed:
+                            reads[id(n)] = fields.index(n.attr)
+                    # the record must not escape: as an argument of another call, or stored in an attribute
+                    if isinstance(n, ast.Call) and not (isinstance(n.func, ast.Attribute) and n.func.attr in ("append", "insert", "index", "count")):
+                        for a_ in list(n.args) + [k.value for k in n.keywords]:
+                            if (isinstance(a_, ast.Name) and a_.id in rec_names) or (isinstance(a_, ast.Name) and a_.id in rec_lists):
+                                if not (isinstance(n.func, ast.Name) and n.func.id in ("len", "bool", "list", "tuple", "reversed", "enumerate", "sorted", "iter", "print", "str", "repr")):
+                                    ok = False
+                    if isinstance(n, ast.Assign) and any(isinstance(t, ast.Attribute) for t in n.targets) \
+                            and isinstance(n.value, ast.Name) and (n.value.id in rec_names or n.value.id in rec_lists):
+                        ok = False
+        if ok:
+            typed_reads.update(reads)
+        else:
+            report.append(f"kept NamedTuple {rel}::{cname}: field name(s) {amb} are also attributes of other objects and the record "
+                          f"does not stay local")
+            del names[cname]
+    usable = {f: i for f, i in usable.items() if any(f in v[2] for v in names.values())}
+    if not names:
+        return report
 
     class Erase(ast.NodeTransformer):
         def visit_Call(self, n):
@@ -118,8 +210,9 @@ def erase_namedtuples(trees: Dict[str, ast.Module], known_classes: Set[str]) -> 
 
         def visit_Attribute(self, n):
             self.generic_visit(n)
-            if isinstance(n.ctx, ast.Load) and n.attr in usable:
-                sub = ast.Subscript(value=n.value, slice=ast.Constant(value=usable[n.attr]), ctx=ast.Load())
+            if isinstance(n.ctx, ast.Load) and (n.attr in usable or id(n) in typed_reads):
+                idx_ = usable[n.attr] if n.attr in usable else typed_reads[id(n)]
+                sub = ast.Subscript(value=n.value, slice=ast.Constant(value=idx_), ctx=ast.Load())
                 return ast.fix_missing_locations(ast.copy_location(sub, n))
             return n
 
@@ -141,7 +234,7 @@ def erase_namedtuples(trees: Dict[str, ast.Module], known_classes: Set[str]) -> 
     for cname, (rel, cnode, fields, _) in sorted(names.items()):
         kept = [f for f in fields if f not in usable]
         report.append(f"erased NamedTuple {rel}::{cname}({', '.join(fields)}) into plain tuples"
-                      + (f"; field(s) {kept} left as attributes (name also used on other objects)" if kept else ""))
+                      + (f"; field(s) {kept} (names also used on other objects) rewritten only on receivers known to hold the record" if kept else ""))
     return report
 
 
@@ -603,8 +696,6 @@ def normalise(trees: Dict[str, ast.Module], inventory: Optional[Set[str]] = None
     """Inline unknown functions in place.  Returns report lines."""
     inv = load_inventory() if inventory is None else inventory
     report: List[str] = []
-    if inventory is None:
-        report += erase_namedtuples(trees, load_class_inventory())
     dotted = {}
     for rel in trees:
         d = rel[:-3].replace("/", ".")
@@ -687,6 +778,11 @@ def normalise(trees: Dict[str, ast.Module], inventory: Optional[Set[str]] = None
             for h in helpers:
                 report.append(f"kept unknown function {h.key}: mutually recursive with another unknown function")
             break
+    if inventory is None:
+        # after the helpers are back in their callers, so that a record built by a helper is seen where it is used
+        _KNOWN_FUNCS.clear()
+        _KNOWN_FUNCS.update(inv)
+        report += erase_namedtuples(trees, load_class_inventory())
     return report
 
 
